@@ -11,27 +11,32 @@ dst = f'/verif/seeded/{sid}'
 def sh(cmd, **kw):
     return subprocess.run(cmd, shell=True, capture_output=True, text=True, **kw)
 meta = {'id': sid, 'breaks_property': pid, 'ran': []}
-# 1. confirm in the scratch worktree
-sh(f'git -C {wt} checkout -- pane')
-r = sh(f'cd {wt} && PYTHONPATH={wt} /venv/bin/python {src}/demo.py')
-meta['demo_clean'] = {'rc': r.returncode, 'tail': (r.stdout + r.stderr)[-300:]}
-r = sh(f'git -C {wt} apply {src}/patch.diff')
-assert r.returncode == 0, r.stderr
-t = sh(f'cd {wt} && /venv/bin/python -m pytest -q -p no:cacheprovider 2>&1 | tail -1')
-meta['tests_with_patch'] = t.stdout.strip()
-r = sh(f'cd {wt} && PYTHONPATH={wt} /venv/bin/python {src}/demo.py')
-meta['demo_patched'] = {'rc': r.returncode, 'tail': (r.stdout + r.stderr)[-400:]}
-sh(f'git -C {wt} checkout -- pane')
-ok = meta['demo_clean']['rc'] == 0 and meta['demo_patched']['rc'] != 0 and '218 passed' in meta['tests_with_patch']
-meta['confirmed'] = ok
-print('confirmed' if ok else 'NOT CONFIRMED', meta['tests_with_patch'], meta['demo_patched']['tail'][-150:].replace('\n', ' | '))
-if not ok:
-    print(json.dumps(meta, indent=1)); sys.exit(1)
-os.makedirs(dst, exist_ok=True)
-for f in ('patch.diff', 'demo.py', 'README.md'):
-    if os.path.exists(f'{src}/{f}'):
-        shutil.copy(f'{src}/{f}', f'{dst}/{f}')
-meta['needs'] = open(f'{src}/README.md').read()[:1500] if os.path.exists(f'{src}/README.md') else ''
+RERUN = not os.path.isdir(wt) and os.path.exists(f'{dst}/meta.json')
+if RERUN:
+    # the scratch worktree is gone: the change was confirmed earlier, only re-run the checks against it
+    meta = json.load(open(f'{dst}/meta.json'))
+    meta['ran'] = []
+if not RERUN:
+  sh(f'git -C {wt} checkout -- pane')
+  r = sh(f'cd {wt} && PYTHONPATH={wt} /venv/bin/python {src}/demo.py')
+  meta['demo_clean'] = {'rc': r.returncode, 'tail': (r.stdout + r.stderr)[-300:]}
+  r = sh(f'git -C {wt} apply {src}/patch.diff')
+  assert r.returncode == 0, r.stderr
+  t = sh(f'cd {wt} && /venv/bin/python -m pytest -q -p no:cacheprovider 2>&1 | tail -1')
+  meta['tests_with_patch'] = t.stdout.strip()
+  r = sh(f'cd {wt} && PYTHONPATH={wt} /venv/bin/python {src}/demo.py')
+  meta['demo_patched'] = {'rc': r.returncode, 'tail': (r.stdout + r.stderr)[-400:]}
+  sh(f'git -C {wt} checkout -- pane')
+  ok = meta['demo_clean']['rc'] == 0 and meta['demo_patched']['rc'] != 0 and '218 passed' in meta['tests_with_patch']
+  meta['confirmed'] = ok
+  print('confirmed' if ok else 'NOT CONFIRMED', meta['tests_with_patch'], meta['demo_patched']['tail'][-150:].replace('\n', ' | '))
+  if not ok:
+      print(json.dumps(meta, indent=1)); sys.exit(1)
+  os.makedirs(dst, exist_ok=True)
+  for f in ('patch.diff', 'demo.py', 'README.md'):
+      if os.path.exists(f'{src}/{f}'):
+          shutil.copy(f'{src}/{f}', f'{dst}/{f}')
+  meta['needs'] = open(f'{src}/README.md').read()[:1500] if os.path.exists(f'{src}/README.md') else ''
 # 2. run the checks against it in /repo, then undo
 assert sh('git -C /repo status --porcelain').stdout.strip() == '', 'repo not clean'
 r = sh(f'git -C /repo apply {dst}/patch.diff')
